@@ -43,9 +43,26 @@ def render() -> str:
         raise TranslatorError("RESERVED_NAMES is empty")
 
     cls_fn = _find_func(ns, "sanitize_class_name")
-    unnamed = [s for s in _str_consts(cls_fn) if s[:1].isupper() and s.isidentifier() and " " not in s and len(s) > 3]
+    # `if not cls_name: cls_name = "<fallback>"`
+    unnamed = [n.body[0].value.value for n in ast.walk(cls_fn)
+               if isinstance(n, ast.If) and isinstance(n.test, ast.UnaryOp) and isinstance(n.test.op, ast.Not)
+               and isinstance(n.test.operand, ast.Name) and n.test.operand.id == "cls_name"
+               and len(n.body) == 1 and isinstance(n.body[0], ast.Assign)
+               and isinstance(n.body[0].value, ast.Constant) and isinstance(n.body[0].value.value, str)]
     if len(unnamed) != 1:
         raise TranslatorError(f"sanitize_class_name: expected one fallback class-name literal, found {unnamed}")
+    # `cls_name in ("Protocol", "Union")`: class names suffixed as they are (case-sensitive); absent before F01k
+    exact: list[str] = []
+    for n in ast.walk(cls_fn):
+        if (isinstance(n, ast.Compare) and isinstance(n.left, ast.Name) and n.left.id == "cls_name"
+                and len(n.ops) == 1 and isinstance(n.ops[0], ast.In) and isinstance(n.comparators[0], (ast.Tuple, ast.List, ast.Set))):
+            elts = n.comparators[0].elts
+            if not all(isinstance(e, ast.Constant) and isinstance(e.value, str) for e in elts):
+                raise TranslatorError("sanitize_class_name: non-literal element in the exact-name tuple")
+            exact += [e.value for e in elts]
+    other_str = [c for c in _str_consts(cls_fn) if c.isidentifier() and c[:1].isupper() and c not in unnamed + exact]
+    if other_str:
+        raise TranslatorError(f"sanitize_class_name: class-name literal(s) without a model: {other_str}")
     tag_fn = _find_func(ns, "sanitize_tag_class_name")
     ret = [n for n in ast.walk(tag_fn) if isinstance(n, ast.Return)]
     if not (len(ret) == 1 and isinstance(ret[0].value, ast.BinOp) and isinstance(ret[0].value.op, ast.Add)
@@ -119,6 +136,7 @@ def render() -> str:
         "From Coq Require Import List NArith.", "Import ListNotations.", "Open Scope N_scope.", "",
         "Definition reserved_names : list (list N) := [" + "; ".join(cstr(k) for k in names) + "].",
         f"Definition s_unnamed_class : list N := {cstr(unnamed[0])}.",
+        "Definition class_exact_names : list (list N) := [" + "; ".join(cstr(k) for k in exact) + "].",
         f"Definition s_client : list N := {cstr(client)}.",
         f"Definition s_unnamed : list N := {cstr(snake_fallback)}.",
         f"Definition post_init_keeps_output : bool := {'true' if keeps_output else 'false'}.",
